@@ -33,6 +33,17 @@ type BlockSpec struct {
 	Miner   int         `json:"miner,omitempty"`
 	Txs     []Intent    `json:"txs,omitempty"`
 	Corrupt *Corruption `json:"corrupt,omitempty"`
+	// Malleate > 0: besides the block itself, a copy with the same header (hence
+	// the same id) but an altered body is prepared (only possible for v2 blocks,
+	// whose id does not bind the body). Submission steps decide which of the two
+	// is handed over. 1 payout address, 2 drop the last v2 transaction, 3 alter
+	// an output value, 4 alter arbitrary data / append an empty-looking one.
+	Malleate int `json:"malleate,omitempty"`
+	// Reorder: if two or more v1 contracts expire in this block, the block is
+	// applied with their order reversed, and every node of the case is built
+	// with chain.WithExpiringContractOrder naming that order for this block id
+	// (the option upstream uses to pin historical orders).
+	Reorder bool `json:"reorder,omitempty"`
 	// OnBad: build on the referenced parent even if that block carries a
 	// corruption; otherwise the reference slides to the nearest ancestor
 	// without one (keeps most of a tree valid; validity itself is always
@@ -68,6 +79,9 @@ type TNode struct {
 	Corrupt string
 	// OwnInvalid is true when the block itself (not an ancestor) is invalid.
 	OwnInvalid bool
+	// Malleated, if non-nil, is a copy of Block with the same id and an altered
+	// body; core rejects it (commitment mismatch) wherever Block is valid.
+	Malleated *types.Block
 }
 
 // Index returns the chain index of the node.
@@ -106,6 +120,9 @@ type Tree struct {
 	Root    *TNode
 	Nodes   []*TNode // parallel to Case.Blocks
 	ByID    map[types.BlockID]*TNode
+	// OrderOverride is handed to every manager of the case through
+	// chain.WithExpiringContractOrder.
+	OrderOverride map[types.BlockID][]types.FileContractID
 }
 
 // ParentOf resolves the relative parent reference of block i.
@@ -147,7 +164,7 @@ func BuildTree(tc TreeCase) *Tree {
 	n, genesis := tc.Net.Network()
 	gl := refl.Genesis(n, genesis)
 	root := &TNode{Idx: -1, Block: genesis, ID: genesis.ID(), Height: 0, Ledger: gl, Hdr: gl.State}
-	t := &Tree{Case: tc, Network: n, Genesis: genesis, Root: root, ByID: map[types.BlockID]*TNode{root.ID: root}}
+	t := &Tree{Case: tc, Network: n, Genesis: genesis, Root: root, ByID: map[types.BlockID]*TNode{root.ID: root}, OrderOverride: map[types.BlockID][]types.FileContractID{}}
 	for i, spec := range tc.Blocks {
 		parent := root
 		if p := tc.ParentOf(i); p >= 0 {
@@ -243,15 +260,76 @@ func (t *Tree) buildNode(i int, spec BlockSpec, parent *TNode) *TNode {
 		node.Err = fmt.Errorf("ancestor invalid: %v", parent.Err)
 		return node
 	}
-	l, err := parent.Ledger.Apply(b, nil)
+	var order []types.FileContractID
+	if spec.Reorder && corrupt == nil && parent.Ledger.HasSupplement() {
+		if ids := parent.Ledger.Expiring[node.Height]; len(ids) >= 2 {
+			for k := len(ids) - 1; k >= 0; k-- {
+				order = append(order, ids[k])
+			}
+		}
+	}
+	l, err := parent.Ledger.Apply(b, order)
 	if err != nil {
 		node.Err = err
 		node.OwnInvalid = true
 		return node
 	}
+	if order != nil {
+		t.OrderOverride[node.ID] = order
+	}
 	node.Ledger = l
 	node.Hdr = l.State
+	if spec.Malleate > 0 && b.V2 != nil && corrupt == nil {
+		if m, ok := malleate(b, spec.Malleate); ok && m.ID() == b.ID() {
+			if _, merr := parent.Ledger.Apply(m, nil); merr != nil { // must be invalid, else it is just another valid body
+				node.Malleated = &m
+			}
+		}
+	}
 	return node
+}
+
+// malleate alters the body of a v2 block without touching its header fields
+// (parent, nonce, timestamp, commitment), so the id stays the same.
+func malleate(b types.Block, kind int) (types.Block, bool) {
+	m := b
+	v2 := *b.V2
+	v2.Transactions = make([]types.V2Transaction, len(b.V2.Transactions))
+	for i := range b.V2.Transactions {
+		v2.Transactions[i] = b.V2.Transactions[i].DeepCopy()
+	}
+	m.V2 = &v2
+	m.MinerPayouts = append([]types.SiacoinOutput(nil), b.MinerPayouts...)
+	switch mod(kind-1, 4) {
+	case 0:
+		m.MinerPayouts[0].Address[0] ^= 1
+	case 1:
+		if len(v2.Transactions) == 0 {
+			m.MinerPayouts[0].Address[1] ^= 1
+		} else if fee := v2.Transactions[len(v2.Transactions)-1].MinerFee; fee.IsZero() {
+			v2.Transactions = v2.Transactions[:len(v2.Transactions)-1]
+		} else {
+			m.MinerPayouts[0].Address[2] ^= 1
+		}
+	case 2:
+		done := false
+		for i := range v2.Transactions {
+			if len(v2.Transactions[i].SiacoinOutputs) > 0 {
+				v2.Transactions[i].SiacoinOutputs[0].Address[3] ^= 1
+				done = true
+				break
+			}
+		}
+		if !done {
+			m.MinerPayouts[0].Address[3] ^= 1
+		}
+	default:
+		v2.Transactions = append(v2.Transactions, types.V2Transaction{ArbitraryData: []byte("malleated")})
+	}
+	if nb, ok := Normalize(m); ok {
+		return nb, true
+	}
+	return m, false
 }
 
 func applyCorruption(cs consensus.State, b *types.Block, c Corruption, genesisTS time.Time) {
@@ -401,6 +479,8 @@ type TreeGenConfig struct {
 	ForkPct      int
 	SharedPct    int // percentage of cases using shared windows
 	BadIntentPct int
+	MalleatePct  int // percentage of blocks that get a same-id altered-body copy
+	ReorderPct   int // shared-window cases: percentage of blocks applied with a reversed expiration order (option WithExpiringContractOrder)
 }
 
 // DefaultTreeGen returns the generator bounds of the current tier.
@@ -499,6 +579,12 @@ func GenTree(t *rapid.T, cfg TreeGenConfig) TreeCase {
 			bs.Txs = append(bs.Txs, GenIntent(t, cfg.Kinds, cfg.BadIntentPct))
 		}
 		bs.OnBad = Chance(t, 25, "onbad")
+		if tc.SharedWindows && Chance(t, cfg.ReorderPct, "reorderroll") {
+			bs.Reorder = true
+		}
+		if Chance(t, cfg.MalleatePct, "malleateroll") {
+			bs.Malleate = 1 + Uniform(t, 4, "malleate")
+		}
 		if Chance(t, cfg.CorruptPct, "corruptroll") {
 			bs.Corrupt = &Corruption{Kind: PickString(t, CorruptionKinds, "ckind"), Arg: rapid.IntRange(0, 15).Draw(t, "carg")}
 		}
